@@ -60,11 +60,11 @@ theorem getComp_cells (n : List Nat) (f comp : CF) (cf : List Nat → List GQ) (
     | none =>
       simp only [hfind, vmapSet] at hvmm
       simp at hvmm
-      exact hvmm.symm
+      exact hvmm
     | some p =>
       simp only [hfind, vmapSet] at hvmm
       simp at hvmm
-      exact hvmm.symm
+      exact hvmm
   refine ⟨⟨hcells.1, hcells.2.1, ?_⟩, hm, hnv, hvd0, hvm0, hu⟩
   intro i hi
   obtain ⟨hcc, hv⟩ := hcells.2.2 i hi
